@@ -2,8 +2,8 @@ import DashLive.Model.BufReader
 import DashLive.Driver.Util
 /-! channel `bufreader <hexfile> <off> <size> <bufsize> <maxbuf> <op;op;…>`
 ops: `r:<int>` read, `p:<nat>` peek, `s:<int>:<0|1|2>` seek, `t` tell. -/
-namespace DashLive.Driver
-open DashLive.BufReader
+namespace DashLive.Driver.BufReader
+open DashLive.Driver DashLive.BufReader
 
 def parseOp (s : String) : Option Op :=
   match s.splitOn ":" with
@@ -33,4 +33,7 @@ def bufreader : List String → Option String
     some (joinWith ";" ((run c init ops).map showOut))
   | _ => none
 
-end DashLive.Driver
+/-- channels exported to `Main.lean` (collected by harness/gen_main.py) -/
+def channels : List (String × (List String → Option String)) := [("bufreader", bufreader)]
+
+end DashLive.Driver.BufReader
